@@ -42,7 +42,11 @@ type World struct {
 	funcs  []*FuncInfo
 
 	callers map[*ssa.Function]map[*ssa.Function]bool
-	pkgFns  map[string][]*ssa.Function // pkgSSAFuncs, by module-relative package path
+
+	anchorsSeen map[string]*FuncInfo       // "rel|name" of every function a rule asked for and found under its name
+	renamed     map[string]*FuncInfo       // "rel|name" -> the function found under another name (nil: none)
+	aliases     map[*types.Func]string     // a renamed anchor -> the name the rules know it by
+	pkgFns      map[string][]*ssa.Function // pkgSSAFuncs, by module-relative package path
 }
 
 type FuncInfo struct {
@@ -115,6 +119,7 @@ func Load(repo, tier, tags string, overlay map[string][]byte, extraEnv ...string
 		return nil, fmt.Errorf("only %d packages loaded from %s (expected >= 25): refusing to analyse a partial program", len(pkgs), repo)
 	}
 	w.indexFuncs()
+	curWorld = w
 	return w, nil
 }
 
@@ -144,8 +149,31 @@ func (w *World) Pkg(rel string) *packages.Package {
 	return w.ByPath[modPath+"/"+rel]
 }
 
-// Func resolves "pkg/engine", "Engine.VAdd" or "pkg/engine", "buildGraphID".
+// Func resolves "pkg/engine", "Engine.VAdd" or "pkg/engine", "buildGraphID". An UNEXPORTED function that is not found under
+// its name is looked for under a new one (renamedAnchor): the rules anchor on what a function is, its name is only the
+// quickest way to find it.
 func (w *World) Func(rel, name string) *FuncInfo {
+	fi := w.funcByName(rel, name)
+	key := rel + "|" + name
+	if fi != nil {
+		if w.anchorsSeen == nil {
+			w.anchorsSeen = map[string]*FuncInfo{}
+		}
+		w.anchorsSeen[key] = fi
+		return fi
+	}
+	if w.renamed == nil {
+		w.renamed = map[string]*FuncInfo{}
+	}
+	if r, ok := w.renamed[key]; ok {
+		return r
+	}
+	r := w.renamedAnchor(rel, name)
+	w.renamed[key] = r
+	return r
+}
+
+func (w *World) funcByName(rel, name string) *FuncInfo {
 	p := w.Pkg(rel)
 	if p == nil {
 		return nil
@@ -224,9 +252,9 @@ func qname(f *types.Func) string {
 		if i := strings.IndexByte(tn, '['); i >= 0 {
 			tn = tn[:i]
 		}
-		return fmt.Sprintf("%s.(%s%s).%s", pk, ptr, tn, f.Name())
+		return fmt.Sprintf("%s.(%s%s).%s", pk, ptr, tn, canonName(f))
 	}
-	return pk + "." + f.Name()
+	return pk + "." + canonName(f)
 }
 
 // shortName: Engine.VAdd / replayAOF
@@ -238,10 +266,10 @@ func shortName(f *types.Func) string {
 			t = p.Elem()
 		}
 		if n, ok := t.(*types.Named); ok {
-			return n.Obj().Name() + "." + f.Name()
+			return n.Obj().Name() + "." + canonName(f)
 		}
 	}
-	return f.Name()
+	return canonName(f)
 }
 
 // ---------- SSA / call graph (lazy) ----------
